@@ -36,10 +36,11 @@ def render_all(obj) -> dict:
             out[d + "/param"] = sql + " || " + repr(p.values)
         except Exception as ex:  # noqa
             out[d + "/param"] = "EXC:" + type(ex).__name__
-    try:
-        out["str"] = str(obj)
-    except Exception as ex:  # noqa
-        out["str"] = "EXC:" + type(ex).__name__
+    if type(obj).__str__ is not object.__str__:
+        try:
+            out["str"] = str(obj)
+        except Exception as ex:  # noqa
+            out["str"] = "EXC:" + type(ex).__name__
     if isinstance(obj, Term):
         for name, f in (("alias", lambda: obj.alias), ("is_aggregate", lambda: obj.is_aggregate),
                         ("tables_", lambda: sorted(str(t) for t in obj.tables_)),
